@@ -16,7 +16,7 @@ def _ops(prop, names):
         OP_PROPS.setdefault(n, set()).add(prop)
 
 
-_ops("C01", "New NewFromFasta Add AddString IgnoreIdentical Append Concat Rename RenameRegexp CleanNames TrimNames TrimNamesAuto "
+_ops("C01", "New NewFromFasta Describe Add AddString IgnoreIdentical Append Concat Rename RenameRegexp CleanNames TrimNames TrimNamesAuto "
             "AppendSeqIdentifier Sort ShuffleSequences FilterLength Deduplicate Translate Clone CloneSeqBag Sample "
             "SampleSeqBag Clear SetSequenceChar ReplaceChar Replace AutoAlphabet SetAlphabet DetectAlphabet Identical "
             "RemoveGapSeqs RemoveCharacterSeqs RemoveGapSites RemoveCharacterSites RemoveMajorityCharacterSites")
@@ -39,7 +39,7 @@ READ_ONLY = set("Clone CloneSeqBag Unalign Sample SampleSeqBag SubAlign Extract 
                 "RefCoordinates RefSites Split Transpose MaxCharStats Consensus CharStats CharStatsSite CharStatsSeq "
                 "UniqueCharacters Entropy EntropyAll NbVariableSites InformativeSites AvgAllelesPerSite Pssm CountDifferences "
                 "NumGapsUnique NumMutationsUnique NumMutRef ListMutRef CountProfile ProfileOnly SiteConservation AlphabetInfo BuildBootstrap RandSubAlign Rarefy "
-                "DetectAlphabet Identical Query LongestORFObj".split())
+                "DetectAlphabet Identical Describe Query LongestORFObj".split())
 
 
 def attribute(op, conjunct):
